@@ -217,6 +217,45 @@ def words_scope(res, pid, rng, tier):
                 if any(ci_contains(tok_, w) for tok_ in o.split() if tok_.lower() not in confl_sw):
                     fails.append({"kind": "a listed sensitive word survives on a line that also holds a secret", "cfg": cfgw.describe(),
                                   "line": ln, "output": o, "word": w})
+    # very long lines: a listed word straddling offsets 65536 / 131072 (a line is processed as a whole)
+    wlong = "zurichgate"
+    for off in (65533, 65536 - 5, 131072 - 4, 8192 - 3):
+        pad_ = ("description " + "x-y " * 40000)[:off - 1] + " "
+        ln_ = pad_ + wlong + " tail " + wlong.upper() + "\n"
+        try:
+            outl, _ = run_lines(fa.FaCfg(salt="lw", words=[wlong]), [ln_])
+        except Exception as e:  # noqa
+            fails.append({"kind": "sensitive-word anonymization raised", "line_length": len(ln_), "exc": repr(e)[:200]})
+            continue
+        res.evaluations += 1
+        if ci_contains(outl[0], wlong):
+            k_ = outl[0].lower().find(wlong)
+            fails.append({"kind": "a listed sensitive word survives", "word": wlong, "line_length": len(ln_), "word_offset_in_input": off,
+                          "output_around_the_word": outl[0][max(0, k_ - 20):k_ + 30]})
+    # the command line in a working directory that holds files named like the option values: a value is a value
+    import tempfile as _tf
+    import shutil as _sh
+    from netconan import netconan as _nc
+    dcw = _tf.mkdtemp(prefix="ncverif_")
+    cwd0 = os.getcwd()
+    try:
+        for nm, body in (("zurich", "zurich-core uplink ZURICH Zurich\nhostname seattle gw\n"), ("seattle", "unrelated\n"), ("sea", "other\n")):
+            open(os.path.join(dcw, nm), "w").write(body)
+        os.chdir(dcw)
+        import contextlib as _cl
+        with fa.LogCap(), _cl.redirect_stderr(io.StringIO()):
+            _nc.main(["-i", "zurich", "-o", "anonymized.out", "-s", "demoSalt", "-w", "zurich,sea", "-r", "seattle"])
+        oc = open(os.path.join(dcw, "anonymized.out")).read()
+        res.evaluations += 1
+        if ci_contains(oc, "zurich") or "hostname seattle gw" not in oc:
+            fails.append({"kind": "a listed sensitive word survives" if ci_contains(oc, "zurich") else "a token that is a reserved word was changed",
+                          "argv": ["-i", "zurich", "-o", "anonymized.out", "-s", "demoSalt", "-w", "zurich,sea", "-r", "seattle"],
+                          "working_directory_holds_files_named": ["zurich", "seattle", "sea"], "output": oc})
+    except BaseException as e:  # noqa
+        fails.append({"kind": "sensitive-word anonymization raised", "entry_point": "command line", "exc": repr(e)[:200]})
+    finally:
+        os.chdir(cwd0)
+        _sh.rmtree(dcw, ignore_errors=True)
     # the command line passes user reserved words through unchanged (a reserved secret value in capitals stays)
     from .ip_checks import run_cli
     st, outs_cli, _ = run_cli(["-p", "-s", "x", "-r", "MyCorpRO,OtherWord"], {"a.cfg": "snmp-server community MyCorpRO ro\nsnmp-server community notReserved1 ro\n"})
@@ -339,6 +378,19 @@ def hashseed_scope(res, pid, rng, tier):
         text = "hostname %s-gw\n description uplink to %s via %s\n peer %s %s\n" % (pair[0], pair[1], pair[0], pair[1].upper(), pair[0])
         reqs.append({"kwargs": dict(anon_pwd=False, anon_ip=False, salt=csalt, sensitive_words=[pair[0], pair[1], "zork"]), "text": text, "before": []})
         reqs.append({"kwargs": dict(anon_pwd=False, anon_ip=False, salt=csalt, sensitive_words=[pair[1], "xyzzy", pair[0]]), "text": text, "before": []})
+    # two listed AS numbers of the private block whose replacements coincide under the salt: both get that replacement, in every process
+    seen_a = {}
+    apair = None
+    for n_ in range(64512, 65536):
+        v_ = int(hashlib.md5((csalt + str(n_)).encode()).hexdigest(), 16) % 1024
+        if v_ in seen_a:
+            apair = (str(seen_a[v_]), str(n_))
+            break
+        seen_a[v_] = n_
+    if apair and pid == "C13":
+        ta = "router bgp %s\n neighbor 10.0.0.1 remote-as %s\n neighbor 10.0.0.2 remote-as %s\n" % (apair[0], apair[1], apair[0])
+        reqs.append({"kwargs": dict(anon_pwd=False, anon_ip=False, salt=csalt, as_numbers=[apair[0], apair[1], "64999"]), "text": ta, "before": []})
+        reqs.append({"kwargs": dict(anon_pwd=False, anon_ip=False, salt=csalt, as_numbers=["65001", apair[1], apair[0]]), "text": ta, "before": []})
     # a churn of anonymizers with reserved words of their own, created and dropped, before an anonymizer whose own reserved word
     # protects a token: nothing of the dead ones may reach it (object identities are recycled by the allocator)
     churn = [dict(anon_pwd=False, anon_ip=False, salt="x%d" % i, sensitive_words=["zzzq"], reserved_words=["edge-sw%d" % i]) for i in range(12)]
@@ -351,7 +403,9 @@ def hashseed_scope(res, pid, rng, tier):
                      "fresh_ref": True})
     if pid == "C13":
         files = {}
-        for k, name in enumerate(["a.cfg", "b.cfg", "sub/c.cfg", "sub/d.cfg", "z/e.cfg", "f.cfg"]):
+        # (a dozen files with secrets of their own: the numbering of the pseudonyms follows the order of the files, in every run)
+        for k, name in enumerate(["a.cfg", "b.cfg", "sub/c.cfg", "sub/d.cfg", "z/e.cfg", "f.cfg", "g.cfg", "h.cfg", "sub/i.cfg", "z/j.cfg", "k.cfg", "l.cfg",
+                                  "m.cfg", "sub/n.cfg", "o.cfg", "p.cfg", "q.cfg"]):
             files[name] = ("hostname r%d\npassword pw%dxyz\nsnmp-server community comm%dqq ro\nip address 10.%d.2.3 255.255.255.0\n" % (k, k, k, k)
                            + "".join("ntp server %d.%d.7.9\n neighbor 2001:db8:%x::1 remote-as 1\n" % (20 + 3 * j, k + j, 16 * j + k) for j in range(8)))
         reqs.append({"kwargs": dict(anon_pwd=True, anon_ip=True, salt="dirsalt"), "files": files, "text": "", "before": []})
